@@ -48,7 +48,10 @@ SHARED_STATE_FUNCS = {"source_bytes_context", "from_cst", "_get_parser", "parse"
 def corpus(rng, n):
     out = []
     for i in range(n):
-        if i % 3 == 0:
+        if i % 25 == 7:
+            out.append(rng.choice(["{ a = 1; b = 2; }\n", "{ a.x = 0; b = 1; }\n", "f { a = 1; }\n",
+                                   "{ m = { p = 1; q = 2; }; }\n"]))
+        elif i % 3 == 0:
             g = canon.DocGen(rng, hyphen=False, max_entries=6)
             out.append(canon.render(g.doc()))
         else:
@@ -78,7 +81,11 @@ def constructed_value(rng):
 
     def lst():
         return NixList(value=[Identifier(name=n) for n in rng.sample(["a", "b", "c", "d"], rng.choice([0, 1, 2, 3]))])
-    k = rng.randrange(9)
+    k = rng.randrange(10)
+    if k == 9:
+        # a value that brings an end-of-line comment with it (forces a one-line set onto lines)
+        from nix_manipulator.expressions.comment import Comment
+        return Primitive(value=7, after=[Comment(text="built", inline=True)])
     if k == 0:
         return [1, 2, 3][: rng.choice([0, 1, 3])]
     if k == 1:
